@@ -212,5 +212,5 @@ META = {
             "Not modelled: memory epochs / data-race detection in push_transition, remove_last_event (only exercised), the fixed "
             "max_threads=32 bound of ClockVector (the model is unbounded; aids 0 and 30 are exercised).",
     "technique": "Coq proof (induction on the execution, clos_trans) + extracted-model differential correspondence on real transitions",
-    "claimed": False,
+    "claimed": True,
 }
